@@ -81,20 +81,56 @@ func errPropagated(c *ssa.Call) (bool, string) {
 					if x.Op != token.NEQ && x.Op != token.EQL {
 						continue
 					}
-					// find returns where cv is known non-nil and a non-nil error is returned
-					for _, b := range c.Parent().Blocks {
-						ret, ok := lastInstr(b).(*ssa.Return)
-						if !ok {
+					if !isNilConst(x.X) && !isNilConst(x.Y) {
+						continue
+					}
+					// every path from the non-nil edge must end in a return of a
+					// non-nil error: it may neither fall back into the loop around the
+					// call (the error would be swallowed and the session carry on) nor
+					// return nil.
+					for _, ref2 := range *x.Referrers() {
+						ifi, isIf := ref2.(*ssa.If)
+						if !isIf {
 							continue
 						}
-						known, isNil := errIsNilAt(ret, cv)
-						if !known || isNil {
-							continue
+						start := ifi.Block().Succs[0]
+						if x.Op == token.EQL {
+							start = ifi.Block().Succs[1]
 						}
-						for _, rv := range retResults(ret) {
-							if types.Identical(rv.Type(), types.Universe.Lookup("error").Type()) && !isNilConst(rv) {
-								return true, ""
+						seen := map[*ssa.BasicBlock]bool{}
+						good, why := true, ""
+						var walk func(b *ssa.BasicBlock)
+						walk = func(b *ssa.BasicBlock) {
+							if seen[b] || !good {
+								return
 							}
+							seen[b] = true
+							if b == c.Block() {
+								good, why = false, "on the error edge control can return to the call site (error swallowed, e.g. `continue`)"
+								return
+							}
+							if ret, ok := lastInstr(b).(*ssa.Return); ok {
+								okRet := false
+								for _, rv := range retResults(ret) {
+									if types.Identical(rv.Type(), types.Universe.Lookup("error").Type()) && !isNilConst(rv) {
+										okRet = true
+									}
+								}
+								if !okRet {
+									good, why = false, "a nil error is returned on the error edge"
+								}
+								return
+							}
+							for _, sc := range b.Succs {
+								walk(sc)
+							}
+						}
+						walk(start)
+						if good && len(seen) > 0 {
+							return true, ""
+						}
+						if !good {
+							return false, why
 						}
 					}
 				case *ssa.Phi:
